@@ -251,3 +251,58 @@ func fname(fn *ssa.Function) string { return ana.FuncName(fn) }
 func (c *Ctx) pos(in ssa.Instruction) string { return c.P.InstrPos(in) }
 
 func sprintf(f string, a ...interface{}) string { return fmt.Sprintf(f, a...) }
+
+// include runs the rules of another property on the already loaded program and adopts those of its
+// obligations that are also necessary conditions of the current property, under the rule id
+// "<current>.<label>" with the key "<original rule>:<original key>".  Violations that are listed as
+// open known findings of the other property are not adopted (that property reports them).
+func (c *Ctx) include(label, other string, keep func(rule string) bool) {
+	f, ok := Registry[other]
+	if !ok {
+		return
+	}
+	sub := report.New(c.R.Dir, other, c.Tier, c.R.Seed)
+	sc := &Ctx{R: sub, P: c.P, Tier: c.Tier, Overlay: c.Overlay, conn: c.conn, roots: c.roots}
+	f(sc)
+	if c.conn == nil {
+		c.conn = sc.conn
+	}
+	rule := c.R.Property + "." + label
+	n := 0
+	for _, o := range sub.Obls {
+		base := strings.TrimSuffix(o.Rule, ".undecided")
+		if !keep(base) || o.Status == report.Advisory {
+			continue
+		}
+		if o.Status == report.Violation && sub.IsOpenKnown(o.Rule, o.Key) {
+			continue
+		}
+		n++
+		key := o.Rule + ":" + o.Key
+		if o.Status == report.Violation {
+			c.R.Bad(rule, key, o.Where, o.Detail, o.Path...)
+		} else {
+			c.R.Ok(rule, key, o.Where, o.Detail)
+		}
+	}
+	if sub.InfraErr != "" && c.R.InfraErr == "" {
+		c.R.InfraErr = sub.InfraErr
+	}
+	// vacuity of the included rules
+	for r2, min := range sub.Minimum {
+		if keep(r2) && sub.Counts[r2] < min {
+			c.R.Bad(rule+".undecided", r2+":instances", "-", sprintf("included rule %s matched %d instance(s), minimum %d", r2, sub.Counts[r2], min))
+		}
+	}
+}
+
+func rulesIn(list ...string) func(string) bool {
+	return func(rule string) bool {
+		for _, l := range list {
+			if rule == l || strings.HasPrefix(rule, l+".") || strings.HasPrefix(rule, l) && strings.HasSuffix(l, ".") {
+				return true
+			}
+		}
+		return false
+	}
+}
